@@ -553,6 +553,12 @@ def set_local_then_reenter(case, params):
     return case.get("class") == "setlocal-reentry" and not any(x in eng for x in ("PANIC", "CRASH", "HANG"))
 
 
+def jit_only_abort(case, params):
+    """the host process aborts (signal 6) with the JIT on while the same program, JIT off, agrees with the reference"""
+    return (case.get("jit") == "jit-on" and case.get("engine", "").startswith("CRASH -6")
+            and case.get("engine_jit_off") == case.get("reference"))
+
+
 def jump_crosses_handler(case, params):
     """a continuation jump crosses a with-handler boundary (escape out of, or re-entry into, a with-handler body or
     handler procedure): checks/c08.py handler_crossing on the program"""
@@ -650,14 +656,17 @@ def run(ck):
     nontrivial = set()
     hist = {}
     shrunk = 0
+    results = {}
     for label, env in JIT_ENVS:
-        res = compare(ck, [[p] for p in progs], env=env)
+        results[label] = compare(ck, [[p] for p in progs], env=env)
         ck.log("%s: compared %d programs" % (label, len(progs)))
-        for p, cls, (e, m) in zip(progs, classes, res):
+    for label, env in JIT_ENVS:
+        res = results[label]
+        for pi, (p, cls, (e, m)) in enumerate(zip(progs, classes, res)):
             ck.cov["evaluations"] += 1
             src = lang.unit_to_steel(p)
             case = {"program": src, "engine": e, "reference": m, "jit": label, "class": cls,
-                    "handler_crossing": handler_crossing(p)}
+                    "handler_crossing": handler_crossing(p), "engine_jit_off": results["jit-off"][pi][0]}
             if excluded(e, m):
                 ck.cov["out_of_fuel"] = ck.cov.get("out_of_fuel", 0) + 1
                 continue
@@ -669,7 +678,7 @@ def run(ck):
             if ck.cov["evaluations"] % 57 == 1:
                 ck.sample(case)
             if e != m:
-                if cls == "generated" and not case["handler_crossing"] and shrunk < 2:
+                if cls == "generated" and not case["handler_crossing"] and shrunk < 2 and "CRASH" not in e:
                     shrunk += 1
                     small = shrink_case(ck, p, env=env)
                     (e2, m2), = compare(ck, [[small]], env=env)
